@@ -49,6 +49,9 @@ func (eng *Engine) runUnit(us UnitSpec) (res *UnitResult) {
 	ex := newExec(eng, us.Fn)
 	ex.sweep = us.Mode == "sweep"
 	ex.lockChecks = us.Locks
+	if us.Locks {
+		ex.lockTags = us.Tags
+	}
 	eng.allocBound = us.AllocBound
 	for k := range eng.inlineOverride {
 		delete(eng.inlineOverride, k)
@@ -113,6 +116,23 @@ func (eng *Engine) runUnit(us UnitSpec) (res *UnitResult) {
 	fr.entry = st.clone()
 	ex.assumeRequires(fr, st)
 	fr.entry = st.clone()
+	if us.Locks && ctr != nil && len(ctr.LockFree) > 0 {
+		// object that holds the unit's mutex: "x.Mutex" -> x
+		n := ctr.LockFree[0]
+		if n.Kind == "field" {
+			env := ex.newSpecEnv(fn, st, nil)
+			ex.bindParams(env, fn, ctr, fr.params)
+			func() {
+				defer func() { recover() }()
+				ex.sc.pure++
+				v := env.eval(n.Args[0])
+				ex.sc.pure--
+				if len(v.L) == 1 {
+					ex.unitLockRef = v.L[0]
+				}
+			}()
+		}
+	}
 	ex.execFunc(fr, st, "true")
 	return res
 }
